@@ -2,6 +2,7 @@ mod c09;
 mod c10;
 mod calls;
 mod common;
+mod compose;
 mod config;
 mod detect;
 mod detectors;
@@ -151,6 +152,14 @@ fn main() {
             let mut w = NdjsonWriter::new(&a(4));
             total::run(&a(2), &a(3), &args[5..].to_vec(), &mut w, &mut out);
             w.finish();
+        }
+        "compose-record" => {
+            // compose-record <corpus|-> <behaviours|-> <random concatenations> <trace> <texts>
+            let mut w = NdjsonWriter::new(&a(5));
+            let mut t = NdjsonWriter::new(&a(6));
+            compose::record(&a(2), &a(3), a(4).parse().unwrap_or(0), &mut w, &mut t, &mut out);
+            w.finish();
+            t.finish();
         }
         _ => usage(),
     }
